@@ -11,7 +11,7 @@ import shutil
 from pathlib import Path
 
 from .. import core
-from ..gen_project import DEFAULT_CFG, gen_project, py_file, ts_file, write_project
+from ..gen_project import DEFAULT_CFG, gen_project, lang_cfg, py_file, ts_file, write_project
 
 PROP = "C08"
 LEVEL_NOTE = ("theorems quantify over all histories / permutations of the orchestrator model with rule plug-ins as parameters; "
@@ -49,7 +49,7 @@ def history_case(args) -> dict:
     out = {"errors": [], "steps": [], "ops": [], "perfile": {}, "fin": {}, "fs0": []}
     try:
         files = gen_project(rng, rng.choice([3, 4, 6, 8]), dup_share=0.6)
-        write_project(proj, files, DEFAULT_CFG)
+        write_project(proj, files, DEFAULT_CFG + lang_cfg(rng))
         paths = [rel for rel, _ in files]
         version = {rel: 0 for rel in paths}          # content version per path (None = deleted)
         nextver = 1
@@ -163,7 +163,7 @@ def perm_case(args) -> dict:
     out = {"errors": []}
     try:
         files = gen_project(rng, rng.choice([4, 7, 10]), dup_share=0.6)
-        write_project(proj, files, DEFAULT_CFG)
+        write_project(proj, files, DEFAULT_CFG + lang_cfg(rng))
         fs = [proj / rel for rel, _ in files]
         core._reset_singletons()
         base = sorted(tok(v) for v in Orchestrator(project_root=proj).lint_files(list(fs)))
